@@ -83,7 +83,10 @@ Fixpoint matches (r : req) (b : list Z) : res bool :=
         end in
       if quoted_hit then Ok true else
       if (beq src rdst && (beq dst rs || beq dst bcast4)) || (beq dst bcast4 && beq src [0;0;0;0]) then
-        let sz := if hsize <? zlen b then hsize else zlen b in
+        (* the reply's own header length (IHL), at least 20, at most the buffer *)
+        let ihl := Z.land (nth 0 b 0) 15 * 4 in
+        let sz0 := if ihl <? 20 then 20 else ihl in
+        let sz := if zlen b <? sz0 then zlen b else sz0 in
         match inner with Some r' => matches r' (zskipn sz b) | None => Ok true end
       else Ok false
   | RDot1Q id inner =>
